@@ -42,6 +42,7 @@ func storesTo(fn *ssa.Function) map[string][]string {
 
 // storeBase names the object a field store goes to; locals are told apart by their type.
 func storeBase(x ssa.Value) string {
+	x = outerOf(x)
 	if a, ok := x.(*ssa.Alloc); ok {
 		t := a.Type()
 		if p, ok := t.Underlying().(*types.Pointer); ok {
@@ -268,7 +269,7 @@ func ScannerHelpers(w *World, rel string) *report.RuleResult {
 					continue
 				}
 				f := fieldName(fa.X.Type(), fa.Field)
-				if n := namedOf(fa.X.Type()); n != nil && n.Obj().Name() == "Lexer" && (f == "pe" || f == "data") {
+				if n := namedOf(outerOf(fa.X).Type()); n != nil && n.Obj().Name() == "Lexer" && (f == "pe" || f == "data") {
 					res.Bad("who-writes/"+w.Name(fn)+"/"+f, w.Pos(fn.Pos()), w.Name(fn), fmt.Sprintf("Lexer.%s is assigned outside NewLexer (%s): offsets no longer refer to the caller's buffer", f, Expr(st.Val)))
 				}
 			}
@@ -317,7 +318,7 @@ func PredPure(w *World, rel string) *report.RuleResult {
 					if !ok {
 						continue
 					}
-					if n := namedOf(fa.X.Type()); n != nil && n.Obj().Name() == "Lexer" && cursor[fieldName(fa.X.Type(), fa.Field)] {
+					if n := namedOf(outerOf(fa.X).Type()); n != nil && n.Obj().Name() == "Lexer" && cursor[fieldName(fa.X.Type(), fa.Field)] {
 						bad = append(bad, fmt.Sprintf("%s assigns lex.%s (%s)", w.Name(fn), fieldName(fa.X.Type(), fa.Field), w.InstrPos(in)))
 					}
 				}
